@@ -178,9 +178,9 @@ Proof.
                             else Ok (vstr (vnth 0 r))) = Ok t).
   { destruct (0 <? idl); [rewrite slice_ok by lia; cbn [bind]|]; eauto. }
   destruct Etid as [t Et]. rewrite Et. cbn [bind].
-  rd.
+  repeat rd.
   match goal with |- context [asign_parse ?r ?x] => destruct (asign_parse_ok r x) as [s Es]; rewrite Es; cbn [bind] end.
-  rd. rd. rd. grd.
+  repeat rd. grd.
   match goal with |- context [t1210_items ?n ?b ?s] =>
     pose proof (t1210_items_total n b s) as Hit; destruct (t1210_items n b s); cbn [bind]; congruence end.
 Qed.
@@ -336,11 +336,11 @@ Proof.
   unfold t0102_parse. destruct (ver =? 3).
   - destruct (len body <? 1 + 15 + 20) eqn:G1; [discriminate|]. rd.
     destruct (len body <? 1 + at_ body 0 + 15 + 20) eqn:G2; [discriminate|]. rd. rd. rd.
-    intros H. inversion H. subst v. clear H.
-    unfold t0102_render. cbn [vnth nth vnum vstr N.eqb Pos.eqb].
+    intros [= <-].
+    unfold t0102_render. cbn [vnth nth vnum vstr]. change (3 =? 3) with true. cbv iota.
     rewrite slice_from_ok. discriminate.
     rewrite !len_app, len_cons, len_nil, fill_bytes_len, !len_sub by lia. lia.
-  - intros H. inversion H. subst v. unfold t0102_render. cbn [vnth nth vnum N.eqb]. discriminate.
+  - intros [= <-]. unfold t0102_render. cbn [vnth nth vnum]. change (2 =? 3) with false. discriminate.
 Qed.
 
 Theorem render_msg_total id gbk ver d r body enc v :
